@@ -89,6 +89,12 @@ def run(rep):
              'the one the function has: fromFunction derives positional / '
              'required / optional / varargs / kwargs from the co_varnames '
              'layout on every path (shared with C18 R18.1)', floor=8)
+    rep.rule('R17.6', 'keyword-only parameters reach the verdict: an implementation '
+             'whose keyword-only parameter has no default binds none of the call '
+             'shapes an interface signature admits, so whether such a parameter '
+             'exists (code.co_kwonlyargcount together with func.__kwdefaults__, or '
+             'inspect.signature) must be read on the way from _verify_element to '
+             'the compatibility verdict', floor=1)
     rep.decline('the "cannot be introspected" cases of _verify_element '
                 '(builtins, descriptors, properties) beyond the branch '
                 'conditions of R17.3')
@@ -145,6 +151,58 @@ def run(rep):
     # ---- R17.5 ---------------------------------------------------------------
     from .C18 import from_function_layout
     from_function_layout(rep, imod, 'R17.5')
+
+
+    # ---- R17.6 ---------------------------------------------------------------
+    kwonly_reaches_verdict(rep, mod, imod, 'R17.6')
+
+
+def kwonly_reaches_verdict(rep, mod, imod, rule):
+    """Information-flow necessary condition: the verdict can only depend on
+    the requiredness of the implementation's keyword-only parameters if some
+    function between _verify_element and the verdict reads where CPython keeps
+    it (__kwdefaults__, or the inspect.signature model).  Readers are searched
+    in the verifier, the describing functions and every package function they
+    call (transitively, by name)."""
+    from ..pyfront import find_def as _fd
+    roots = [('verify.py', mod, n) for n in ('_verify_element', '_incompat')] + \
+            [('interface.py', imod, n) for n in ('fromFunction', 'fromMethod')]
+    seen, todo, readers, visited = set(), [], [], []
+    for fn, m, n in roots:
+        d = _fd(m, n)
+        todo.append((fn, m, d))
+    while todo:
+        fn, m, d = todo.pop()
+        if d is None or id(d) in seen:
+            continue
+        seen.add(id(d))
+        visited.append('%s:%s' % (fn, getattr(d, 'name', '?')))
+        for x in ast.walk(d):
+            if isinstance(x, ast.Attribute) and x.attr in ('__kwdefaults__', 'KEYWORD_ONLY', 'kwonlydefaults'):
+                readers.append('%s:%s reads .%s' % (fn, d.name, x.attr))
+            elif isinstance(x, ast.Constant) and x.value in ('__kwdefaults__', 'kwonlydefaults'):
+                readers.append('%s:%s reads %r' % (fn, d.name, x.value))
+            elif isinstance(x, ast.Call):
+                nm = dotted(x.func) or ''
+                if nm.split('.')[-1] in ('signature', 'getfullargspec'):
+                    readers.append('%s:%s calls %s' % (fn, d.name, nm))
+                if isinstance(x.func, ast.Name):
+                    for fn2, m2 in (('verify.py', mod), ('interface.py', imod)):
+                        try:
+                            d2 = _fd(m2, x.func.id)
+                        except Exception:
+                            d2 = None
+                        if d2 is not None and isinstance(d2, (ast.FunctionDef,)):
+                            todo.append((fn2, m2, d2))
+    f = _fd(imod, 'fromFunction')
+    rep.check(rule, 'interface.fromFunction', bool(readers),
+              ('requiredness of keyword-only parameters is read: %s' % sorted(set(readers))[:3])
+              if readers else
+              {'problem': 'no function between _verify_element and the verdict reads '
+                          '__kwdefaults__ / inspect.signature (functions searched: %s): '
+                          'an implementation `def m(self, a, *, key)` is accepted for '
+                          '`def m(a)` although no admitted call binds' % sorted(visited)},
+              construct='kwonly-required', node=f)
 
 
 def extra_coverage(rep):
